@@ -1823,7 +1823,15 @@ func (node *TopNode) resolveMap(binding *syntax.MapExp, t syntax.Type,
 	var errs syntax.ErrorList
 	switch t := t.(type) {
 	case *syntax.TypedMapType:
-		for key, exp := range binding.Value {
+		// Resolve the entries in sorted key order, so that the order of the
+		// reported errors is repeatable.
+		keys := make([]string, 0, len(binding.Value))
+		for key := range binding.Value {
+			keys = append(keys, key)
+		}
+		sort.Strings(keys)
+		for _, key := range keys {
+			exp := binding.Value[key]
 			if ready, v, err := node.resolve(exp, t.Elem,
 				fork, readSize); err != nil {
 				allReady = ready && allReady
